@@ -25,7 +25,7 @@ def judge(ctx, trace, chunk=20000):
         ch = trace[i:i + chunk]
         p = write_ndjson(ctx.path("c16_trace_%d.ndjson" % (i // chunk)), ch)
         j = ctx.tlc("SeriesCheckTrace", "SeriesCheckTrace.cfg", workers=1, files={"c16_trace.ndjson": p}, timeout=3000,
-                    heap="4g", tag="judge-%d" % (i // chunk))
+                    heap="3g", tag="judge-%d" % (i // chunk))
         done = prints(j, "DONE")
         if not done or done[0][0] != len(ch):
             raise MachineryError("JUDGE consumed %s of %d trace records" % ((j["distinct"] or 2) - 2, len(ch)))
@@ -41,25 +41,30 @@ def run(ctx, cases_override=None):
     if cases_override is None:
         w = int(os.environ.get("VERIF_TLC_WORKERS") or min(vlib.NCPU, 16))
         # ---- MC: the impl-shaped decision tree satisfies P1 and P2 on EVERY scenario of the model
-        mc = ctx.tlc("SeriesCheck", "SeriesCheck_MC.cfg", tag="mc", timeout=3000, workers=w, heap="4g", allow_violation=True)
+        mc = ctx.tlc("SeriesCheck", "SeriesCheck_MC.cfg", tag="mc", timeout=3000, workers=w, heap="3g", allow_violation=True)
         if mc["invariant_violated"]:
             leads.append(mc["invariant_violated"])
         # ---- GEN (a): every scenario whose metric never had a sample - the stratum in which P2 speaks
-        gen = ctx.tlc("SeriesCheck", "SeriesCheck_GenNever.cfg", tag="gen-never", timeout=3000, workers=w, heap="4g", allow_violation=True)
+        gen = ctx.tlc("SeriesCheck", "SeriesCheck_GenNever.cfg", tag="gen-never", timeout=3000, workers=w, heap="3g", allow_violation=True)
         cases = [v[0] for v in prints(gen, "CASE")]
         cases.sort(key=lambda c: json.dumps(c, sort_keys=True))
         n_never = len(cases)
+        # ---- GEN (a'): the series appears while the check's first probe waits in the queue of a busy one-worker client
+        gq = ctx.tlc("SeriesCheck", "SeriesCheck_GenQueued.cfg", tag="gen-queued", timeout=3000, workers=w, heap="3g", allow_violation=True)
+        qc = [v[0] for v in prints(gq, "CASE")]
+        qc.sort(key=lambda c: json.dumps(c, sort_keys=True))
+        n_queued = len(qc)
         # ---- GEN (b), thorough: every scenario whose selector returns series now - the stratum in which P1 speaks
         n_now = 0
         if thorough:
-            gnow = ctx.tlc("SeriesCheck", "SeriesCheck_GenNow.cfg", tag="gen-now", timeout=3000, workers=w, heap="4g", allow_violation=True)
+            gnow = ctx.tlc("SeriesCheck", "SeriesCheck_GenNow.cfg", tag="gen-now", timeout=3000, workers=w, heap="3g", allow_violation=True)
             nowc = [v[0] for v in prints(gnow, "CASE")]
             nowc.sort(key=lambda c: json.dumps(c, sort_keys=True))
             n_now = len(nowc)
             cases += nowc
         # ---- GEN (c): simulation over the whole space (seeded): one scenario per behaviour
         want = 80000 if thorough else 3000
-        sim = ctx.tlc("SeriesCheck", "SeriesCheck_Gen.cfg", tag="gen-sim", timeout=3000, workers=w, heap="4g",
+        sim = ctx.tlc("SeriesCheck", "SeriesCheck_Gen.cfg", tag="gen-sim", timeout=3000, workers=w, heap="3g",
                       simulate=max(1, want // w), depth=6)
         seen = {json.dumps(c, sort_keys=True) for c in cases}
         simc = []
@@ -70,7 +75,8 @@ def run(ctx, cases_override=None):
                 simc.append(v[0])
         simc.sort(key=lambda c: json.dumps(c, sort_keys=True))
         cases += simc
-        total = 7 * 7 * 81 * 3 * 6 * 9
+        cases += qc               # last: each of them takes about 2 s of wall time, spread over the workers
+        total = 7 * 8 * 81 * 3 * 6 * 9 + 96
         mcs = [mc]
     else:
         cases, total, mcs = cases_override, 0, []
@@ -138,6 +144,7 @@ def run(ctx, cases_override=None):
         "exhaustive": False,
         "scenario_space": total,
         "scenarios_never_present_all": n_never if cases_override is None else 0,
+        "scenarios_appearing_while_queued": n_queued if cases_override is None else 0,
         "scenarios_present_now_all": n_now if cases_override is None else 0,
         "p1_antecedent_true": p1,
         "p2_antecedent_true": p2,
